@@ -850,7 +850,7 @@ def run_stream_capped(binary, cases, reset_line):
             lines.append(reset_line)
             bounds.append((len(lines), len(lines) + len(c)))
             lines.extend(c)
-        out, rc, err = run_lines_full(binary, lines, 1200 if len(cases) - start > 1 else 60)
+        out, rc, err = run_lines_full(binary, lines, 400 if len(cases) - start > 1 else 60)
         done, aborted = 0, False
         for k, (a, b) in enumerate(bounds):
             if b <= len(out):
@@ -997,14 +997,14 @@ def tie_subject(prop, tier, seed, res):
     cases = [c for c in lib.load_corpus("subject") if c and c[0].startswith("subj ")]
     ncorpus = len(cases)
     if prop == "C05":
-        n = 6000 if tier == "quick" else 60000
+        n = 20000 if tier == "quick" else 150000
         for i in range(n):
             cases.append(gen_c05_case(rng, i % NSIG, 40 if tier == "quick" else 70))
     else:
         cases += gen_c10_exhaustive(tier)
         nex = len(cases) - ncorpus
         res.extra["exhaustive_small_scope_cases"] = nex
-        n = 4000 if tier == "quick" else 40000
+        n = 10000 if tier == "quick" else 100000
         for i in range(n):
             cases.append(gen_c10_random(rng, i % NSIG, 5, 4))
     exp = [subj_expected(c) for c in cases]
@@ -1018,7 +1018,7 @@ def tie_subject(prop, tier, seed, res):
 
     compare(res, prop, "Subject", cases, exp, impl, model, run_one, valid, subj_expected, "subject")
 
-    opcount, distinct, br = {}, set(), {"nested_rounds": 0, "caught": 0, "freed_in_round": 0, "stale_rejected": 0, "muted_skipped_cases": 0}
+    opcount, distinct, br = {}, set(), {"nested_rounds": 0, "caught": 0, "freed_in_round": 0, "stale_rejected": 0}
     for c, e in zip(cases, exp):
         for l, x in zip(c, e):
             t = l.split()
@@ -1122,12 +1122,12 @@ def replay(prop, spec, path):
     if ops[0].startswith("obsv"):
         bins = build_all(res, False, True)
         e = obsv_expected(ops)
-        o = seqtie.run_stream(bins["obsv"], [ops], "obsv reset")[0]
+        o = run_stream_capped(bins["obsv"], [ops], "obsv reset")[0]
         m = seqtie.run_stream(None, [ops], "obsv reset", is_driver=True)[0]
     else:
         bins = build_all(res, True, False)
         e = subj_expected(ops)
-        o = seqtie.run_stream(bins["subj%d" % case_sig(ops)], [ops], "subj reset")[0]
+        o = run_stream_capped(bins["subj%d" % case_sig(ops)], [ops], "subj reset")[0]
         m = seqtie.run_stream(None, [ops], "subj reset", is_driver=True)[0]
     bad = False
     for i, l in enumerate(ops):
